@@ -11,8 +11,8 @@ Part 1 (source regeneration): tree -> `ast` object -> the real pony.orm.asttrans
 environment; the value (or exception class) must equal the table.
 Part 2 (end to end): the same expression as an *external* sub-expression of a real query on an in-memory SQLite database -
 `select("x.id for x in T if x.i == <expr>")` in a caller frame whose locals are the environment (string2ast, PreTranslator,
-create_extractors, extractors_cache, extract_vars, get_globals_and_locals), and the same query as a generator object closing
-over the names (decompile, cells) - the parameter values actually bound are captured by a sqlite3 connection `factory=` and
+create_extractors, extractors_cache, extract_vars, get_globals_and_locals), as a generator object and as
+`T.select(lambda x: x.i == <expr>)` closing over the names (decompile, closure cells) - the parameter values actually bound are captured by a sqlite3 connection `factory=` and
 compared with Eval.
 
 Self-check: Eval is compared with CPython's eval of the fully parenthesised source on every tree and environment first."""
@@ -113,7 +113,7 @@ def features(e, out=None):
 
 
 def signature(part, feats, form=None):
-    feats = [f for f in feats if not f.startswith('generator-form:') or form == 'generator']
+    feats = [f for f in feats if not f.startswith('generator-form:') or form in ('generator', 'lambda')]
     return 'C04:%s' % (feats[0] if feats else part + ':no-known-feature')
 
 
@@ -221,8 +221,15 @@ def _make(T, mk):
     return gen
 '''
 
+_LAMBDAFORM_SRC = '''
+def _make(T, mk):
+    def lam(a, b, c):
+        return lambda x: %s
+    return lam
+'''
 
-def generator_query(c, maker, env, exp_value, plain_env):
+
+def generator_query(c, maker, env, exp_value, plain_env, T=None):
     """Run the query given as a generator object closing over a, b, c.  Returns False when the point must be skipped because the
     decompiler did not preserve the outer expression's meaning (C03's business, not C04's)."""
     from pony.orm.decompiling import decompile
@@ -231,15 +238,20 @@ def generator_query(c, maker, env, exp_value, plain_env):
     g = maker(env['a'], env['b'], env['c'])
     tree = decompile(g)[0]           # exceptions propagate: the query raises the same one
     try:
-        cond = tree.generators[0].ifs[0]
+        if T is None:
+            cond = tree.generators[0].ifs[0]
+            assert len(tree.generators[0].ifs) == 1
+        else:
+            cond = tree          # lambda x: x.i == <expr>
         rhs = cond.comparators[-1]
-        assert isinstance(cond, ast.Compare) and len(cond.comparators) == 1 and len(tree.generators[0].ifs) == 1
+        assert isinstance(cond, ast.Compare) and len(cond.comparators) == 1
         code = px.compile_expr(copy.deepcopy(rhs))
     except RecursionError:
         raise
     except Exception:
         c['e2e_generator_form_skipped_filter_not_recovered_by_decompiler'] += 1
-        g.close()
+        if T is None:
+            g.close()
         return False
     try:
         got = px.norm(eval(code, dict(G, **plain_env)))
@@ -249,9 +261,13 @@ def generator_query(c, maker, env, exp_value, plain_env):
         got = ['e', type(ex).__name__]
     if not px.same(got, exp_value):
         c['e2e_generator_form_skipped_decompiler_changed_meaning'] += 1
-        g.close()
+        if T is None:
+            g.close()
         return False
-    select(g)[:]
+    if T is None:
+        select(g)[:]
+    else:
+        T.select(g)[:]
     return True
 
 
@@ -317,8 +333,11 @@ def check_end_to_end(ctx, c, pts, db, r, names, space, plan, index):
     plain, _ = envs_for(names, k)
     T = db.T
     forms = ['string']
-    if index % plan['genform_every'] == 0:
+    every = plan['genform_every']
+    if index % every == 0:
         forms.append('generator')
+    if every == 1 or index % every == 1:
+        forms.append('lambda')
     runners = {}
     for i in pick_points(exp, plan['envs_per_tree']):
         want = expected_params(exp[i]) if not (isinstance(exp[i], list) and exp[i][0] == 'e') else ('eq', None)
@@ -340,9 +359,9 @@ def check_end_to_end(ctx, c, pts, db, r, names, space, plan, index):
                     else:
                         if (form, shape) not in runners:
                             ns = {}
-                            exec(_GENFORM_SRC % text, ns)
+                            exec(_GENFORM_SRC % text if form == 'generator' else _LAMBDAFORM_SRC % cond, ns)
                             runners[(form, shape)] = ns['_make'](T, px.mk)
-                        if not generator_query(c, runners[(form, shape)], env, exp[i], plain[i]):
+                        if not generator_query(c, runners[(form, shape)], env, exp[i], plain[i], T if form == 'lambda' else None):
                             c['e2e_queries'] -= 1
                             continue
                 got, sql = bound_params(shape)
